@@ -226,9 +226,13 @@ def _unren(t):
 # bindings
 
 UNIV = (I(4), I(0), I(-3), R(2.5), L(I(1), I(2), I(3)), L(R(1.5), R(2.5)), L(), L(L(I(1), I(2)), L(I(3), I(4))),
-        L(I(1), L(I(2), I(3))), S('ab'), D([(I(1), I(2))]))
+        L(I(1), L(I(2), I(3))), S('ab'), D([(I(1), I(2))]),
+        # beyond U11 (only phase Z binds them): vectors whose reductions are the special value 0 - as a NumPy integer,
+        # not a Python number - so that the zero tests of Divide and Power meet a computed zero (sum, product / min, max)
+        L(I(1), I(-1)), L(I(0), I(1), I(2)), L(I(-3), I(0)), L(R(0.0), R(0.0)))
 ULIT = tuple(lit(v) for v in UNIV)
-NU = len(UNIV)
+NU = 11                         # U11: the universe of the complete products
+ZERO_RED = (11, 12, 13, 14)     # Z4: the zero-reducing vectors
 # sub-universes (indices into UNIV) used where the full product is out of reach; every phase names the one it uses
 SUB6 = (0, 3, 4, 6, 7, 9)       # U6: one value per admission / shape class: 4, 2.5, [1 2 3], [], [[1 2] [3 4]], "ab"
 SUB4 = (0, 4, 7, 9)             # U4: 4, [1 2 3], [[1 2] [3 4]], "ab"
@@ -929,8 +933,13 @@ def build_phases(cfg):
     cl = ('a', 'b', '2') if cfg.quick else LEAVES
     cmp2 = [('b', o, ('b', c1, l1, r1), ('b', c2, l2, r2)) for o in '+-*' for c1 in '><=' for c2 in '><='
             for l1 in cl for r1 in cl for l2 in cl for r2 in cl]
+    # a reduction as operand of the operators with a special case for zero (Divide: zero divisor -> :undefined; Power:
+    # zero base / exponent), the other operand a leaf: complete over (% ^) x both operand orders x (+ * | &) x leaves
+    zred = [t for o in '%^' for r in '+*|&' for l in LEAVES for t in (('b', o, l, ('r', r, 'b')), ('b', o, ('r', r, 'b'), l))]
+    zphases = [('Z', 'numpy', ('top', 'fn', 'lam'), zred, P('len1 a in {4 0 2.5 [1 2 3]}, b in Z4', 1, (0, 1, 3, 4), ZERO_RED)),
+               ('ZT', 'torch', ('top',), zred, P('len1 a in {4 2.5}, b in Z4', 1, (0, 3), ZERO_RED))]
     if cfg.quick:
-        return [
+        return zphases + [
             ('C3', 'numpy', ('top', 'fn'), cmp2, P('len1 a in U11, b in B3', 1, ALL, SUB_B3)),
             ('C3T', 'torch', ('top',), cmp2, P('len1 a in U6, b in B2', 1, SUB6, SUB_B2)),
             # every expression with <= 1 operator node, everywhere, every binding, every length-2 history
@@ -942,7 +951,7 @@ def build_phases(cfg):
             ('H3', 'numpy', ('join',), red[2], P('len3 a in U4, b in {[1 2 3]}, a::', 3, SUB4, (4,), KG)),
             ('T', 'torch', POSITIONS, e01, P('len2 a in U6, b in B2, both styles', 2, SUB6, SUB_B2)),
         ]
-    return [
+    return zphases + [
         ('C3', 'numpy', ('top', 'fn'), cmp2, P('len1 a in U11, b in B3', 1, ALL, SUB_B3)),
         ('C3T', 'torch', ('top',), cmp2, P('len1 a in U6, b in B2', 1, SUB6, SUB_B2)),
         ('H2', 'numpy', POSITIONS, e01, P('len2 a,b in U11, both styles', 2, ALL, ALL)),
@@ -1157,7 +1166,7 @@ def run(cfg):
                              'disagreements': 0},
         'cpu_s': round(total['cpu_s'] + fresh['cpu_s'], 1),
         'phases': phase_cov,
-        'universe': {'U11': list(ULIT), 'U6': [ULIT[i] for i in SUB6], 'U4': [ULIT[i] for i in SUB4],
+        'universe': {'U11': list(ULIT[:NU]), 'Z4': [ULIT[i] for i in ZERO_RED], 'U6': [ULIT[i] for i in SUB6], 'U4': [ULIT[i] for i in SUB4],
                      'B3': [ULIT[i] for i in SUB_B3], 'B2': [ULIT[i] for i in SUB_B2]},
         'rule': 'complete product, per phase, of: expression trees of the compilable grammar (leaves a b 2 0.5 0; binop '
                 '+ - * % ^, cmp > < =, negate, reduce and scan of + * | &; 3-node phases: - ^ < >, negate, +/, +\\) '
